@@ -440,9 +440,24 @@ func c13(r *report.Run) {
 							continue
 						}
 						atomic.AddInt64(&sane, 1)
-						if fe.Line != perr.Loc.Line || fe.Column != perr.Loc.Column {
+						wantLine, wantCol := perr.Loc.Line, perr.Loc.Column
+						if btoks, lerr2 := lexer.Lex(file.NewSource(bad)); lerr2 == nil && perr.Tok == len(btoks)-1 {
+							// the reference stops at the end of input: that position is the last rune of the text
+							// (computed here, not taken from the lexer under test)
+							if brs := []rune(bad); len(brs) > 0 {
+								wantLine, wantCol = 1, 0
+								for _, ch := range brs[:len(brs)-1] {
+									if ch == '\n' {
+										wantLine, wantCol = wantLine+1, 0
+									} else {
+										wantCol++
+									}
+								}
+							}
+						}
+						if fe.Line != wantLine || fe.Column != wantCol {
 							r.Report(report.Violation{Sub: "syntax/" + l.name, Kind: "wrong-position", Witness: kind + " near " + toks[k].String(), Order: order,
-								Detail: map[string]interface{}{"source": bad, "expected": fmt.Sprintf("%d:%d", perr.Loc.Line, perr.Loc.Column), "reported": fmt.Sprintf("%d:%d", fe.Line, fe.Column), "message": fe.Message}})
+								Detail: map[string]interface{}{"source": bad, "expected": fmt.Sprintf("%d:%d", wantLine, wantCol), "reported": fmt.Sprintf("%d:%d", fe.Line, fe.Column), "message": fe.Message}})
 						}
 					}
 				}
